@@ -72,6 +72,25 @@ pub fn check_window(c: &WindowCase, st: &mut Stats) -> CheckResult {
     } else {
         vp_core::iterlaws::iter_laws("Window<f64, Rectangle>", || Window::<f64, Rectangle>::new(c.n), &vals, false)?;
     }
+    // a clone taken after j frames continues at phase j/(n-1), and so does the original
+    for j in [0usize, 1, c.n / 2, c.n - 1] {
+        macro_rules! go {
+            ($W:ty) => {{
+                let mut w = Window::<f64, $W>::new(c.n);
+                for _ in 0..j {
+                    let _ = w.next();
+                }
+                let cl = w.clone();
+                let (a, b): (Vec<f64>, Vec<f64>) = (cl.take(c.n - j).collect(), w.take(c.n - j).collect());
+                ensure!(a == vals[j..] && b == vals[j..], "window({}): a clone taken after {} frames yields {:?}, the original {:?}, expected {:?}", c.n, j, a, b, &vals[j..]);
+            }};
+        }
+        if c.hann {
+            go!(Hann)
+        } else {
+            go!(Rectangle)
+        }
+    }
     // multi-channel / f32 frames carry the same value on every channel
     let v2: Vec<[f32; 2]> = if c.hann { Window::<[f32; 2], Hann>::new(c.n).take(c.n).collect() } else { Window::<[f32; 2], Rectangle>::new(c.n).take(c.n).collect() };
     for (i, f) in v2.iter().enumerate() {
@@ -184,6 +203,15 @@ fn chunks_typed<F: WF, W: WindowFn<f64, Output = f64> + Clone>(c: &ChunkCase, ha
                 ensure!(got.len() == c.bin, "chunk {} has {} frames, bin = {}", k, got.len(), c.bin);
                 if k < 2 {
                     vp_core::iterlaws::iter_laws("Windowed chunk", || chunk.clone(), &got, false)?;
+                    // a clone of a chunk taken after j frames continues where the chunk stands
+                    for j in [1usize, c.bin / 2, c.bin - 1] {
+                        let mut ch = chunk.clone();
+                        for _ in 0..j {
+                            let _ = ch.next();
+                        }
+                        let rest: Vec<F> = ch.clone().take(c.bin - j).collect();
+                        ensure!(rest == got[j..], "chunk {}: a clone taken after {} frames yields {:?}, expected the rest of the chunk {:?}", k, j, rest, &got[j..]);
+                    }
                 }
                 for i in 0..c.bin {
                     let p = i as f64 / (c.bin - 1) as f64;
